@@ -772,3 +772,6 @@ CONVERT = Stream('cli_convert', cli_harness, None, gen_convert, oracle=oracle_co
                  nontrivial=lambda op, out: out.startswith('rc=0'), timeout=600)
 CONVERT_MPI = Stream('cli_convert_mpi', cli_harness, None, gen_convert, oracle=oracle_convert, kind='oracle',
                      np=[2, 3], nontrivial=lambda op, out: out.startswith('rc=0'), timeout=900)
+
+INTERP_MPI = Stream('cli_interp_mpi', cli_harness, None, gen_interp, oracle=oracle_interp, kind='oracle',
+                    np=[2, 4], nontrivial=lambda op, out: out.startswith('rc=0'), timeout=900)
